@@ -32,7 +32,7 @@ ASSUMPTIONS = ['reference counting plus gc.collect() reaches quiescence', 'the h
 TARGETS = ['sort', 'join', 'complement', 'distinct', 'aggregate', 'pivot', 'mergesort', 'fromdicts']
 REQUIRED = (['target:' + t for t in TARGETS] + ['files-created', 'files-removed', 'iterator-outlived-view', 'abandoned-mid-iteration',
             'source-failed-midway', 'complete-pass-after-a-failed-pass', 'pass-from-file-cache', 'cache-cleared-under-live-iterator', 'three-iterators', 'view-released-first', 'cache-off', 'quiescent-points-checked'])
-EXHAUSTIVE = {'quick': True, 'thorough': True}
+EXHAUSTIVE = {'quick': False, 'thorough': False}   # the enumerated families are complete within their bounds, but a seeded random family is judged too
 
 _audit = None
 
